@@ -24,8 +24,8 @@ pub const SPEC: PropSpec = PropSpec {
 		"work bound decided on thread CPU time: > 3 s for an input <= 64 KiB with max_seq_size <= 100000 is reported",
 		"zero-allocation is demanded only for Ok results on the slice path with a visitor that does not allocate itself",
 	],
-	cases: (60_000, 6_000_000),
-	secs: (60, 900),
+	cases: (50_000_000, 4_000_000_000),
+	secs: (30, 900),
 	required: &[
 		"inputs:random",
 		"inputs:mutated",
